@@ -22,7 +22,8 @@ extern "C" __attribute__((noinline)) void stub_ellipse(Path64* out, const Point6
   out->push_back(c);
 }
 static inline double nd_in(double lo, double hi) { double d = nondet_double(); ASSUME(d >= lo && d <= hi); return d; }
-extern "C" __attribute__((noinline)) double stub_acos(double x) { return nd_in(0.0, 3.1415926535897936); }
+static int g_acos_calls;
+extern "C" __attribute__((noinline)) double stub_acos(double x) { g_acos_calls++; return nd_in(0.0, 3.1415926535897936); }
 extern "C" __attribute__((noinline)) double stub_sin(double x) { return nd_in(-1.0, 1.0); }
 extern "C" __attribute__((noinline)) double stub_cos(double x) { return nd_in(-1.0, 1.0); }
 static bool same_double(double a, double b) { uint64_t x, y; __builtin_memcpy(&x, &a, 8); __builtin_memcpy(&y, &b, 8); return x == y; }
@@ -80,7 +81,9 @@ extern "C" void harness_dispatch_rules() {
   double delta = nd_delta(), at = nd_in(0.0, 100.0);
   Paths64 one; one.push_back(mk(LEN1, 1000));
   Paths64 s;
-  NLOG = 0; g_ell_x = -1; run_group(one, jt, et, delta, at, s);
+  NLOG = 0; g_ell_x = -1; g_acos_calls = 0; run_group(one, jt, et, delta, at, s);
+  // the arc-step state (steps_per_rad_, step_sin_, step_cos_) is recomputed for the group whenever round joins OR round end caps will be drawn
+  if (jt == JoinType::Round || et == EndType::Round) VA(g_acos_calls == 1);
   double ad = delta < 0 ? -delta : delta;
   if (LEN1 == 1) {
     // single points become circles (Round) or squares of half-width ceil(|delta|), skipped iff the group delta is below 1
